@@ -156,13 +156,16 @@ def obligations(pid, tier):
     det = []
     for q in (("yaw_3_4_5", "yaw_neg") if quick else ("yaw_3_4_5", "yaw_neg", "yaw90", "yaw180")):
         for (n, m) in ([(1, 1), (2, 1), (1, 2)] if quick else [(1, 1), (2, 1), (1, 2), (2, 2)]):
+            if (n, m) == (2, 2) and q not in ("yaw90", "yaw180"):
+                continue  # 2x2 scenes under a non-axis-aligned ego yaw leave single paths running for tens of minutes
             for ck in (("xy", "dist") if n + m <= 2 else ("xy",)):
                 small = n + m >= 3
                 det.append(dict(ego_q=q, n=n, m=m, policy="default" if small else "allow_unknown", crit_kind=ck,
                                 e_labels=[CAR, UNK] if not small else [CAR], g_labels=[CAR, PED, FP] if not small else [CAR, FP]))
     trk = [dict(ego_q="yaw_3_4_5", ego_q2="yaw_neg", n=1, policy="default")]
-    if not quick:
-        trk += [dict(ego_q="yaw90", ego_q2="yaw_3_4_5", n=2, policy="default")]
+    if not quick:  # (two objects per frame in both renderings do not finish within an hour: outside the thorough bound)
+        trk += [dict(ego_q="yaw90", ego_q2="yaw_3_4_5", n=1, policy="default"),
+                dict(ego_q="yaw_neg", ego_q2="yaw180", n=1, policy="allow_unknown")]
     upd = [dict(ego_q="yaw_3_4_5", ego_q2="yaw_neg", crit_kind="xy")]
     if not quick:
         upd += [dict(ego_q="yaw_3_4_5", ego_q2="yaw_neg", crit_kind="dist"), dict(ego_q="yaw90", ego_q2="yaw_3_4_5", crit_kind="xy")]
@@ -192,7 +195,7 @@ def meta(pid):
         "bounds": {"quick": "scenes of <= 2x1 / 1x2 objects with symbolic ego-relative x (estimates rotated ~14 deg against "
                             "ground truths), ego yaw atan(4/3) and -atan(3/4)x2, symbolic ego translation, critical filter x/y "
                             "or ring with symbolic bounds, centre- and plane-distance metrics; tracking: 2 frames x 1 object",
-                   "thorough": "2x2 scenes, four ego yaws, tracking 2 frames x 2 objects"},
+                   "thorough": "four ego yaws, 2x2 scenes under the two axis-aligned ones, tracking 2 frames x 1 object under three ego-pose pairs"},
         "outside": ["ego yaws outside the exact-rotation set", "decisions within float rounding of their boundary (the "
                     "statement's proviso)", "unit-level frame independence of filters (C10), scores (C06) and heading (C09) is "
                     "decided there against ego-relative oracles for both renderings"],
